@@ -21,6 +21,7 @@ import (
 
 	"github.com/kubewharf/kubebrain/pkg/backend"
 	"github.com/kubewharf/kubebrain/pkg/backend/election"
+	"github.com/kubewharf/kubebrain/pkg/server/service/leader"
 	"github.com/kubewharf/kubebrain/pkg/storage"
 
 	"kbverif/lib"
@@ -29,7 +30,7 @@ import (
 // ---------- case description ----------
 
 type opSpec struct {
-	Kind  string `json:"kind"`            // get | create | update | acquire (Get, then Create if NotFound else Update)
+	Kind  string `json:"kind"`            // get | create | update | acquire (Get, then Create if NotFound else Update) | info (leader.go GetLeaderInfo/GetElectionInfo/Describe on the node)
 	Fault string `json:"fault,omitempty"` // "" | err (engine call fails) | unknown (commit reports an error, applied if its condition holds) | tso (timestamp read fails)
 }
 
@@ -62,6 +63,9 @@ type opObs struct {
 	Stored  string `json:"stored_after"`
 	Desc    string `json:"describe"`
 
+	Got      string `json:"get_returned,omitempty"`
+	gotB     []byte
+	gotOK    bool
 	storedB  []byte
 	storedOK bool
 	descH    string
@@ -75,6 +79,8 @@ type cand struct {
 	spec        candSpec
 	lock        resourcelock.Interface
 	tap         *lib.ElTap
+	le          leader.LeaderElection // the node's leaderElection object (information lookups)
+	sched       *lib.Sched
 	cur         *opSpec // fault plan of the operation in progress
 	engineCalls int
 	log         []opObs
@@ -113,7 +119,7 @@ func (b *mutantBatch) PutIfNotExist(k, v []byte, ttl int64) {
 var backendsMade int
 
 func newCand(i int, spec candSpec, kv storage.KvStorage, prefix string, sched *lib.Sched, viaBackend bool, mutant string) *cand {
-	c := &cand{idx: i, spec: spec}
+	c := &cand{idx: i, spec: spec, sched: sched}
 	inner := kv
 	if mutant != "" {
 		inner = &mutantKV{KvStorage: kv, mode: mutant}
@@ -145,12 +151,22 @@ func newCand(i int, spec candSpec, kv storage.KvStorage, prefix string, sched *l
 		b := backend.NewBackend(c.tap, backend.Config{Prefix: prefix, Identity: spec.ID, WatchCacheSize: 16}, &lib.NopMetrics{})
 		backendsMade++
 		c.lock = b.GetResourceLock()
+		c.le = leader.NewLeaderElection(b, &lib.NopMetrics{}, nil, nil)
 	} else {
 		// exactly what NewBackend does (backend.go: electionConfig) without the backend's goroutines
 		c.lock = election.NewResourceLockManager(election.Config{Prefix: prefix, Identity: spec.ID, Timeout: time.Second}, c.tap).GetResourceLock()
+		c.le = leader.NewLeaderElection(lockOnlyBackend{l: c.lock}, &lib.NopMetrics{}, nil, nil)
 	}
 	return c
 }
+
+// lockOnlyBackend gives leader.NewLeaderElection the one method it uses at construction.
+type lockOnlyBackend struct {
+	backend.Backend
+	l resourcelock.Interface
+}
+
+func (x lockOnlyBackend) GetResourceLock() resourcelock.Interface { return x.l }
 
 func envName(kind, fault string) string {
 	if kind == "get" {
@@ -175,9 +191,24 @@ func (c *cand) doOp(op opSpec) string {
 	tso0, _, _ := c.tap.Snapshot()
 	o := opObs{Cand: c.idx + 1, Kind: op.Kind, Env: envName(op.Kind, op.Fault)}
 	switch op.Kind {
+	case "info":
+		// what request goroutines do on this node while the elector runs (leader.go:116-146)
+		c.sched.Yield("info")
+		_ = c.le.GetLeaderInfo()
+		_, err := c.le.GetElectionInfo()
+		_ = c.lock.Describe()
+		o.Res = "ROk"
+		if err != nil {
+			o.Res = "RErr"
+		}
 	case "get":
+		g0, _, _ := c.tap.GetSnapshot()
 		_, err := c.lock.Get()
 		o.Res = lib.ElClassGet(err)
+		// the harness's own record of what the engine returned to THIS interface-level Get
+		if g1, b, ok := c.tap.GetSnapshot(); g1 > g0 && ok {
+			o.gotB, o.gotOK, o.Got = b, true, string(b)
+		}
 	case "create", "update":
 		c.seq++
 		transitions := 0
@@ -422,8 +453,10 @@ func stepCoq(o opObs) string {
 		lab = lib.App("LCreate", lib.N(uint64(o.Cand)), bytesCoq([]byte(o.Holder)), bytesCoq(o.Bytes), o.Env, tenvCoq(o))
 	case "update":
 		lab = lib.App("LUpdate", lib.N(uint64(o.Cand)), bytesCoq([]byte(o.Holder)), bytesCoq(o.Bytes), o.Env, tenvCoq(o))
+	case "info":
+		lab = lib.App("LInfo", lib.N(uint64(o.Cand)))
 	}
-	return lib.App("mkStep", lab, o.Res, lib.Bool(o.TsoRead), optBytesCoq(o.storedB, o.storedOK),
+	return lib.App("mkStep", lab, o.Res, lib.Bool(o.TsoRead), optBytesCoq(o.gotB, o.gotOK), optBytesCoq(o.storedB, o.storedOK),
 		lib.Pair(bytesCoq([]byte(o.descH)), lib.N(o.descT)))
 }
 
@@ -489,7 +522,7 @@ func main() {
 		outs := []string{}
 		for _, o := range r.steps {
 			outs = append(outs, o.Kind+":"+o.Res)
-			if o.Kind != "get" {
+			if o.Kind != "get" && o.Kind != "info" {
 				writes++
 				switch o.Res {
 				case "ROk":
@@ -542,6 +575,12 @@ func main() {
 		}
 
 		// --- fixed corpus: the situations the theorems name, first ---
+		// take-over against a renewal: A reads R0, the holder renews (R0 -> R1), an information lookup runs on
+		// A's node, A's take-over decided on R0 must fail and R1 must stay (all schedules, incl. that one)
+		explore(mk(eng, "absent", "corpus-takeover-vs-renewal", prog("create", "get", "update"), prog("get", "info", "update")))
+		// three nodes over one kv: A.Get(R0); B.Get(R0) + B.Update accepted; information lookups on A's and C's
+		// nodes in between; A.Update must fail
+		explore(mk(eng, "held", "corpus-info-lookup", prog("get", "info", "update"), prog("get", "update"), prog("info")))
 		explore(mk(eng, "absent", "corpus-renew-twice", prog("create", "update", "update", "get", "update")))
 		explore(mk(eng, "held", "corpus-same-observed", prog("get", "update"), prog("get", "update")))
 		explore(mk(eng, "absent", "corpus-create-race", prog("get", "create"), prog("get", "create")))
@@ -576,7 +615,7 @@ func main() {
 		explore(mk(eng, "absent", "exh-3x1", prog("get", "create"), prog("get", "create"), prog("acquire")))
 
 		// --- random beyond: 2..3 candidates, longer programs, engine faults, random schedules ---
-		kinds := []string{"get", "get", "update", "update", "create", "acquire", "acquire"}
+		kinds := []string{"get", "get", "update", "update", "create", "acquire", "acquire", "info"}
 		faults := []string{"", "", "", "", "", "err", "unknown", "tso"}
 		for i := 0; i < nRandom; i++ {
 			n := 2 + rnd.Intn(2)
@@ -586,7 +625,7 @@ func main() {
 				p := make([]opSpec, m)
 				for j := range p {
 					p[j] = opSpec{Kind: kinds[rnd.Intn(len(kinds))]}
-					if p[j].Kind != "acquire" {
+					if p[j].Kind != "acquire" && p[j].Kind != "info" {
 						p[j].Fault = faults[rnd.Intn(len(faults))]
 						if p[j].Kind == "get" && p[j].Fault == "unknown" {
 							p[j].Fault = ""
